@@ -278,6 +278,31 @@ def empty_and_quote_arguments():
     return out
 
 
+def growth_inside_arguments():
+    """Every expanding construct ($NAME, ${NAME}, %get(key), two of them, a nested built-in) INSIDE the argument list of every
+    argument-taking built-in, at the end of a line, with values of 1 .. 20000 bytes - far more than the text that is left on the
+    line: a scratch buffer sized from the UNEXPANDED text (of the argument, of the rest of the line) overflows only here, and by a
+    few bytes first (sizes around the allocator's 8/16/24-byte classes)."""
+    out = []
+    outers = ["%appname(", "%version(", "%get(", "%put(k ", "%random(a ", "%b001(", "%dirscan(", "%get(nokey "]
+    for n in (1, 7, 8, 9, 15, 16, 17, 24, 25, 100, 1000, 3000, 20000):
+        big = b"G" * n
+        inners = [b"$C11BIG", b"${C11BIG}", b"%get(big)", b"$C11BIG$C11BIG", b"%appname($C11BIG)"]
+        texts = [b"x " + o.encode() + i + b")" for o in outers for i in inners]
+        s = Script("adv:growth-in-args")
+        s.add("setenv %s %s" % (bl(b"C11BIG"), bl(big)), op="setenv")
+        s.file("m.cfg", MAGIC + b"begin A\n" + b"".join(b"v " + t + b"\n" for t in texts) + b"end\n")
+        s.init(); s.reg("null", 1); s.reg("A", 2); s.regbi("b001")
+        s.expand(b"%put(big " + big + b")")
+        s.parse("m.cfg")
+        for t in texts:
+            s.expand(t)
+        s.free()
+        s.add("setenv %s -" % bl(b"C11BIG"), op="setenv")
+        out.append(s)
+    return out
+
+
 def path_and_environment_families():
     """spifconf_parse(name, dir, path) - the form that looks the file up and changes directory - crossed with where the file
     is found (cwd, dir argument, relative / absolute / second path entry), what it is (good, wrong magic, empty, missing) and the
@@ -710,7 +735,7 @@ def run(ctx):
     model_check(ctx)
     log("model checking done %.0fs" % (time.time() - ctx.t0))
     rnd = random.Random(ctx.seed)
-    adv = adversarial(rnd) + builtin_near_misses() + dirscan_sweep(rnd) + path_and_environment_families() + empty_and_quote_arguments()
+    adv = adversarial(rnd) + builtin_near_misses() + dirscan_sweep(rnd) + path_and_environment_families() + empty_and_quote_arguments() + growth_inside_arguments()
     ev = drive(ctx, exe, adv, "adversarial")
     ctx.sample({"adversarial_families": sorted(set(re.sub(r"-\d+$", "", s.fam) for s in adv))})
     log("adversarial done %.0fs" % (time.time() - ctx.t0))
